@@ -19,6 +19,7 @@ EXPLANATION = (
     "ambiguous kinds are silent. Rule C07.R3 (sibling call sites): a helper that reset calls with exactly the value it "
     "stores in a state field is, when step calls it too, given the value step stores in that field or an intermediate, "
     "never the superseded field of the incoming state (e.g. Snake samples the new fruit against the NEW body). Not decided: entity counts, position/grid agreement, conservation laws (numeric).")
+EXPLANATION += " (R6) moving an entity = a write at its origin and a write at its destination on the same array; the destination is computed from the origin, and when the move is blocked both coincide and the last write wins: the destination write must come last (RobotWarehouse agents and shelves, Sokoban agent, SlidingTilePuzzle blank)."
 EXPLANATION += " (R5) border tests: every comparison of a coordinate (a term the code uses as a grid subscript, or a position moved by a displacement) with 0 or with an extent of the grid is one of the four exact tests >= 0, < 0, < extent, >= extent (B1), and in every boolean formula built from such tests a coordinate outside the grid decides the formula by itself -- truth table over the formula's own atoms (B2); Maze, Cleaner, Snake, SlidingTilePuzzle, Connector, LevelBasedForaging (rules/bounds_rules.py)."
 EXPLANATION += ' (R4) Connector: an action the mask forbids (connected agent) is not executed by step (borrowed from C04.R3b, one direction only).'
 
@@ -45,6 +46,10 @@ def check(tier: str) -> Result:
     low = {e: (per.get(e, 0), m) for e, m in MIN_PER_ENV.items() if per.get(e, 0) < m}
     if (n < MIN_TOTAL or low) and not any(o.ok is False for o in res.obligations):
         raise AnalysisError(f"typed check sites below the hand-confirmed minimum: total {n} (>= {MIN_TOTAL}), per environment {low}")
+    from . import move_rules
+    n_wo = move_rules.write_order_obligations(res, tree, "C07.R6")
+    if n_wo < 3:
+        raise AnalysisError(f"only {n_wo} two-write moves found (hand-confirmed minimum 3 of SlidingTilePuzzle, RobotWarehouse x2, Sokoban)")
     res.analysed = {"strict_environments": axis_rules.STRICT, "typed_sites": n, "paired_reset_step_call_arguments": n_p, "per_environment": per}
     res.assumptions = ["row-major arrays; the repository's naming convention for extents (confirmed by reading all 23 environments)",
                        "environments with a single extent symbol for both axes are not typed (square by construction)"]
